@@ -220,6 +220,32 @@ def run(op, a):
         return obs(v[0].derivative(v[1]))
     if op == "subst":
         return obs(v[0].substitute(v[1]))
+    if op.startswith("after."):
+        x = v[0]
+        what = op[6:]
+        if what == "restrict":
+            r = x.restrict(v[1])
+        elif what == "exists":
+            r = x.existential_quantification(v[1])
+        elif what == "forall":
+            r = x.universal_quantification(v[1])
+        elif what == "deriv":
+            r = x.derivative(v[1])
+        else:
+            r = E.mk_not(x) if isinstance(x, E) else (T if isinstance(x, T) else B).mk_not(x)
+        if isinstance(r, E):
+            rb = r.to_table().to_expression()
+        elif isinstance(r, T):
+            rb = T.from_expression(r.to_expression())
+        else:
+            rb = B.from_expression(r.to_expression())
+
+        def cmp(p, q):
+            return f"{low(p.is_equivalent(q))},{low(p.is_implied_by(q))}"
+
+        small = r.degree() <= 5
+        return (f"inputs={sset(r.inputs())} ess={sset(r.essential_inputs())} enum={enum_text(r) if small else '-'} "
+                f"rebuilt={cmp(r, rb)};{cmp(rb, r)} self={cmp(r, r)} orig={cmp(r, x)};{cmp(x, r)}")
     if op == "conv.ET":
         r1, r2 = v[0].to_table(), T.from_expression(v[0])
         return obs(r1) if str(r1) == str(r2) else "to_/from_ differ"
